@@ -101,6 +101,64 @@ CLAIMED = {
                 'CPython (ast, symtable, exec) judges both the specifications and Mako: expressions re-emitted by '
                 'FunctionDecl/ArgumentList and read back from Template.code, declared/undeclared identifiers and strict_undefined renders, '
                 'and adjust_whitespace plus full renders at 15 margins compared with native exec.'},
+    'C11': {       'design_ref': 'DESIGN.md section 3, C11',
+        'note': 'Trusts TLC and the geometry measurement of the catalog texts (lines_common.measure, exercised by negative controls: '
+                'shifted template, corrupted line/column).',
+        'spec': 'Layout.tla, Lines.tla, LinesCat.tla, MC_Lines.tla',
+        'technique': 'TLA+ model checking (TLC) + spec-to-code replay',
+        'text': 'TLC enumerates every layout (<=2 constructs before the planted fault [3 over a subset in thorough], <=1 after) x 80 fault '
+                'entries x LF/CRLF, checks ReportAtFault and CursorIsPrefixSum on the lexer-cursor and pyparser arithmetic of Lines.tla '
+                'and exports the position the property demands; each case is compiled by the real mako (string; '
+                'file/lookup/module-directory sample) and exc.lineno/pos/filename/source, RichTraceback and the error templates are '
+                'compared. Bounded, not a proof.'},
+    'C12': {       'design_ref': 'DESIGN.md section 3, C12',
+        'note': 'Chains are seeded samples, not exhaustive; stub frames not compared; PYTHONDONTWRITEBYTECODE=1.',
+        'spec': 'Layout.tla, Lines.tla, LineMap.tla, Warn.tla, LinesCat.tla, MC_Lines.tla, MC_LineMap.tla',
+        'technique': 'TLA+ model checking (TLC) + spec-to-code replay + state-based line-map validation',
+        'text': 'Lines.tla exports the line every template-owned frame/warning must show for all layouts x planted raise/hop/warning; '
+                'LineMap.tla checks EveryEmittedLineMapsHome on the PythonPrinter/full_line_map accounting; Warn.tla checks '
+                'ShownExactlyOnce; cases and seeded include/namespace/inherit chains are rendered on five construction paths and '
+                'RichTraceback records, error templates, format_exceptions, real full_line_map token pairs and shown warnings are '
+                'compared. Bounded, not a proof.'},
+    'C20': {       'design_ref': 'DESIGN.md section 3, C20',
+        'note': 'Messages matched by unique text, order not compared; silent corners not generated (see assumptions in evidence).',
+        'spec': 'Layout.tla, Extract.tla, ExtractCat.tla, MC_Extract.tla',
+        'technique': 'TLA+ model checking (TLC) + spec-to-code replay',
+        'text': 'TLC runs the comment-window machine of Extract.tla over all item sequences in the bound, checks EachCallOnceAtItsLine, '
+                'NothingFromDecoys, CommentsAttachExactly against the planted truth and exports the expected tuples; every case goes '
+                'through the Babel plugin (5 encodings) and the lingua plugin and the tuples are compared. Bounded, not a proof.'},
+    'C16': {       'design_ref': 'DESIGN.md section 3, C16',
+        'note': 'Trusts TLC, the scheduler and interposers (harness/sched.py), the declared footprints behind the sleep sets '
+                '(cross-checked by unreduced DFS), simulated time; file deletion not exercised; line-level preemption bound 2 only on a '
+                'tiny page.',
+        'spec': 'LookupConc.tla, Trace_LookupConc.tla, RenderShared.tla, MC_RenderShared.tla, Trace_RenderShared.tla',
+        'technique': 'TLA+ model checking (TLC, safety+liveness) + exhaustive deterministic scheduling of real threads with trace '
+                     'validation + schedule replay',
+        'text': 'TLC checks MutexDiscipline, FirstRequestsCompileOnce, CompleteObject, FreshSinceCallStart, OnlyDocumentedExceptions and '
+                '(weak fairness, no state constraint) NoThreadBlocked on LookupConc for 2 threads (same/different URI, modify/break/tick '
+                'steps) and 3 threads, and RenderIsolation/BoundUnderConcurrency/MemoStable/PrivateStacks on RenderShared; every '
+                'interleaving of 2 real threads at the interposed lock/collection/file/clock points (sleep-set DFS; 3 threads preemption '
+                'bound 2) is validated by Trace_LookupConc with the invariants evaluated in every state; TLC -simulate behaviours and the '
+                'SpecDev counterexample are replayed as schedules on real threads; line-level schedules (sys.settrace; preemption bounds '
+                '1-2, PCT, random) of 2-3 concurrent renders sharing inherit/namespace/include/cached def through a bounded lookup are '
+                'validated by Trace_RenderShared. Bounded, not a proof.'},
+    'C18': {       'design_ref': 'DESIGN.md section 3, C18',
+        'note': 'Codec tables come from CPython (trusted; Encoding_Tables.tla is regenerated on every run). The BOM + utf8-alias corner '
+                'and a BOM character in Template.source are accepted either way.',
+        'spec': 'Encoding.tla, MC_Encoding.tla, Encoding_Tables.tla',
+        'technique': 'TLA+ model checking (TLC) + spec-to-code replay',
+        'text': 'TLC checks Precedence, ErrorsExact, SameTemplateAsDecodedText, RenderEncodes, RenderUnicodeIgnoresOutputEncoding over the '
+                'full codec x BOM x comment x input_encoding x path grid and the output_encoding x errors grid, and prints the expected '
+                'observation of every listed cell; each cell is concretised and run by the real mako in child processes on '
+                'bytes/file/module-directory/fresh-process-reload and compared clause by clause. Bounded, not a proof.'},
+    'C08': {       'design_ref': 'DESIGN.md section 3, C08',
+        'note': 'Meaning(text, context) is uninterpreted (the first render fixes the digest); known findings F04, F23-F26.',
+        'spec': 'Paths.tla, MC_Paths.tla, Trace_Paths.tla',
+        'technique': 'TLA+ model checking (TLC) + spec-to-code replay + trace validation',
+        'text': 'TLC checks PathIndependence, OwnSource, OwnCode, DefsAgree, ModuleFileReused, RegistryWeak on bounded histories of the '
+                'code-shaped registry model (counterexamples replayed on real code and reported as findings); -simulate histories replayed '
+                'on real Template objects; a seeded corpus realised on the eight paths in fresh processes under PYTHONHASHSEED 0/1/2/7 '
+                'sharing a module directory and validated by Trace_Paths.tla. Bounded, not a proof.'},
 }
 
 NOT_BUILT_REASON = "check not built yet (build in progress)"
